@@ -28,7 +28,8 @@ OPS = (
     + [O("SliceNegStop", 0, 1, 1)]
     + [O("SliceFrom", 0, 0, 1), O("SliceFrom", 1, 0, 1), O("SliceFrom", 0, 0, 2)]
     + [O("Len"), O("Iter"), O("Bool"), O("Listify"), O("Reversed"), O("Copy")]
-    + [O("Contains", 0), O("Contains", 2), O("Eq", 0), O("Eq", 1), O("Eq", 2), O("Eq", 3), O("Eq", 4), O("Eq", 5), O("Eq", 6), O("Count", 1)]
+    + [O("Contains", 0), O("Contains", 2), O("Eq", 0), O("Eq", 1), O("Eq", 2), O("Eq", 3), O("Eq", 4), O("Eq", 5), O("Eq", 6), O("Eq", 7), O("Eq", 8), O("Eq", 7, 1), O("Count", 1)]
+    + [dict(O("Index", 3), big=True), dict(O("Index", 5), big=True)]
     + [O("HasInd", i) for i in (0, 2, 3)]
     + [O("IterTake", 1), O("IterDrain"), O("CopyIndex", 0), O("CopyIndex", 1), O("CopyList")]
 )
@@ -73,6 +74,10 @@ def do_op(L, src, o, aux=None):
             aux["cp"] = deep_copy(L)
         return aux["cp"][a] if op == "CopyIndex" else aux["cp"].listify()
     if op == "Index":
+        # positions are arbitrary-precision integers: when the logged position is beyond the end, the call uses
+        # a position far beyond the machine word that is congruent to it (indexing wraps around)
+        if o.get("big") and len(src) > 0 and a >= len(src):
+            return L[a + len(src) * 2 ** 64]
         return L[a]
     if op == "NegIndex":
         return L[-a]
@@ -98,9 +103,15 @@ def do_op(L, src, o, aux=None):
         return a in L
     if op == "Eq":
         partner = {1: list(src), 5: list(src), 0: list(src) + [9], 2: list(src)[:-1], 6: list(src)[:-1], 3: [],
-                   4: (list(src)[:-1] + [9]) if src else [9]}[a]
+                   4: (list(src)[:-1] + [9]) if src else [9], 7: list(src), 8: list(src)}[a]
         from vyxal.LazyList import LazyList
 
+        if a in (7, 8):
+            # an equal lazy partner that has itself been observed already (first item / everything)
+            P = LazyList(iter(partner))
+            if partner:
+                _ = P[0] if a == 7 else len(P)
+            return (L == P) if b == 0 else (P == L)
         return L == (LazyList(iter(partner)) if a in (5, 6) else partner)
     if op == "Count":
         return L.count(a)
@@ -155,6 +166,8 @@ def cases(tier, rng):
             o = dict(rng.choice(OPS))
             if o["op"] in ("Index", "HasInd", "CopyIndex"):
                 o["a"] = rng.randint(0, 10)
+                if o["op"] == "Index" and rng.random() < 0.3:
+                    o["big"] = True
             elif o["op"] == "IterTake":
                 o["a"] = rng.randint(1, 4)
             elif o["op"] == "NegIndex":
